@@ -101,7 +101,7 @@ def tlaps_chain(work, rep):
         rep.notes.append("tlapm did not prove all obligations of ChainProof.tla: " + out[-400:])
 
 
-def make_check(prop, plans_of, rule, nontrivial, level="model_checking", assumptions=(), post=None, pre=None):
+def make_check(prop, plans_of, rule, nontrivial, level="model_checking", assumptions=(), post=None, pre=None, post_all=None):
     def check(work, tier, seed, replay):
         rep = Report(prop, tier, seed, level)
         rng = random.Random(seed)
@@ -157,6 +157,8 @@ def make_check(prop, plans_of, rule, nontrivial, level="model_checking", assumpt
                                                     "embeddings": list(pl.embeds), "http": pl.http})
             os.remove(trace)
         finish_counts(rep)
+        if post_all:
+            post_all(work, rep, tier, seed)
         rep.cov["rule"] = rule
         rep.cov.setdefault("exhaustive", True)
         rep.assumptions += ["ed25519 and SHA-256 are secure", "harness projection (root table, own note reader, own RFC 6962 reference) is correct",
@@ -433,4 +435,5 @@ CHECKS["C12"] = make_check("C12", c12_plans,
     "isolation half of C12: every transition of the multi-log model (logs sharing a key) judged by Isolation (an update touches only the log it names; per-log byte snapshots), and "
     "TLC-generated interleaved histories over 2..3 logs followed, on fresh witnesses with the same keys and origins, by each log's sub-history alone: per-log abstract state and a digest of "
     "text + log signature + deterministic witness signature must be equal (AloneEqualsInterleaved). The identity half (one id function on every interface, duplicate ids refused) is checked by "
-    "the start-up family (see level_note); distinct = distinct update steps by (state, request, verdict)", any_update)
+    "the start-up family (see level_note); distinct = distinct update steps by (state, request, verdict)", any_update,
+    post_all=lambda work, rep, tier, seed: __import__("checks_omni").startup_part(work, rep, tier, seed, "C12"))
